@@ -236,6 +236,52 @@ where
     }
 }
 
+/// message lists with REPEATED values: every position stays bound to its own value (a tampered list that
+/// only re-arranges or substitutes values already present in the list must be rejected)
+pub fn c02_repeats<CS: BbsCiphersuite>(h: &mut H)
+where
+    CS::Expander: for<'a> ExpandMsg<'a>,
+{
+    let (sk, pk) = rand_keypair::<CS>(h);
+    let vals = distinct_msgs(h, 3);
+    let (a, b, c) = (vals[0].clone(), vals[1].clone(), vals[2].clone());
+    let shapes: Vec<Vec<Vec<u8>>> = vec![
+        vec![a.clone(), a.clone(), b.clone(), b.clone()],
+        vec![a.clone(), b.clone(), a.clone(), b.clone()],
+        vec![a.clone(), a.clone(), a.clone(), b.clone(), b.clone()],
+        vec![a.clone(), b.clone(), b.clone(), c.clone(), c.clone(), a.clone()],
+        vec![b.clone(), b.clone()],
+    ];
+    for msgs in shapes {
+        let hdr = rand_header(h);
+        let s = match sign::<CS>(h, &sk, &pk, hdr.as_deref(), Some(&msgs)).ok() { Some(s) => s, None => continue };
+        let sig = s.bbsPlusSignature().clone();
+        let v = verify::<CS>(h, &pk, &sig, hdr.as_deref(), Some(&msgs));
+        h.expect(v.is_ok(), "C02.repeats_honest", "signature over a list with repeated messages does not verify", &[h.last()]);
+        h.stat("C02.repeats");
+        for i in 0..msgs.len() {
+            for v2 in [&a, &b, &c] {
+                if *v2 == msgs[i] { continue; }
+                let mut m = msgs.clone();
+                m[i] = v2.clone();
+                let v = verify::<CS>(h, &pk, &sig, hdr.as_deref(), Some(&m));
+                h.expect(!v.is_ok(), "C02.repeats_substitute", &format!("signature over a list with repeated messages verifies with position {} replaced by another value", i), &[h.last()]);
+            }
+        }
+        // a proof over the same list, disclosing everything: the substituted list must be refused there too
+        let all: Vec<usize> = (0..msgs.len()).collect();
+        let tape = crate::gen::gen_proof::rand_tape(h, 5);
+        let (p, _) = proofgen::<CS>(h, &pk, &s.to_bytes(), hdr.as_deref(), None, Some(&msgs), Some(&all), tape);
+        if let Some(p) = p.ok() {
+            let last = msgs.len() - 1;
+            let mut m = msgs.clone();
+            m[last] = if msgs[last] == a { b.clone() } else { a.clone() };
+            let v = proofverify::<CS>(h, &pk, &p, hdr.as_deref(), None, Some(&m), Some(&all));
+            h.expect(!v.is_ok(), "C02.repeats_proof", "a full-disclosure proof over a list with repeated messages verifies with the last message replaced", &[h.last()]);
+        }
+    }
+}
+
 /// larger message counts: the first, a middle and the LAST message, the count and the header stay bound
 pub fn c02_sizes<CS: BbsCiphersuite>(h: &mut H)
 where
